@@ -14,6 +14,7 @@ import DL.Model.VmsJson
 import DL.Model.FixSmall
 import DL.Model.Ws
 import DL.Model.ImportFixJson
+import DL.Model.FixRestJson
 
 /-! `dlmodel`: one JSON request per line on stdin, one JSON answer per line on stdout. -/
 open Lean (Json)
@@ -226,6 +227,11 @@ def dispatch (j : Json) : Except String Json := do
         | .error _ => attrs
       | none => attrs
     pure (Json.mkObj [("reported", Json.arr ((DL.FixSmall.spreadReported attrs').map (fun (n : Nat) => (n : Json))).toArray)])
+  | "win" => DL.FixRest.runWin false j
+  | "winprefix" => DL.FixRest.runWin true j
+  | "globalrepl" => DL.FixRest.runGlobalRepl j
+  | "boolattr" => DL.FixRest.runBoolAttr j
+  | "curlychild" => DL.FixRest.runCurlyChild j
   | "fixb" => do
     let v ← getStr j "v"
     pure (Json.mkObj [("text", match DL.FixBuild.jsxAttrQuote v.toList with
